@@ -398,3 +398,176 @@ Qed.
 
 Lemma copy_children_le : forall names w sf so df, world_le w (snd (copy_children w sf so names df)).
 Proof. intros. apply copy_children_gen_le. intros. apply h5copy_le. Qed.
+
+(* ------------------------------------------------------------------ frame of _copy (no overwrite, no rename) *)
+Lemma open_dst_le : forall w df,
+  world_le w (if negb (file_exists w df) || false then set_store w df (Some empty_store) else w).
+Proof.
+  intros. unfold file_exists. destruct (get_store w df) eqn:E; simpl.
+  - apply world_le_refl.
+  - now apply world_le_create.
+Qed.
+
+(** cp / ln / ln -s without the overwrite flag only ADD links (and objects): whatever the outcome,
+    every object of both files is still there with the same attributes and payload and every link it
+    had; hence (resolves_mono) every path that resolved keeps resolving to the same object.
+    The one exception is the cross-file copy onto the root of the destination, which also updates the
+    root attributes (copy_root_frame below). *)
+Theorem copy_frame : forall w sf sp df dp link soft e w',
+  _copy w sf sp df dp false link false soft = (e, w') ->
+  (sf = df \/ dp <> [] \/ link = true \/ soft = true) ->
+  world_le w w'.
+Proof.
+  intros w sf sp df dp link soft e w' H Hdom. unfold _copy in H.
+  destruct (Nat.ltb 1 _); [inversion H; subst; apply world_le_refl|].
+  destruct (negb (file_exists w sf)); [inversion H; subst; apply world_le_refl|].
+  destruct (fid_eqb sf df && (negb (file_exists w df) || false)); [inversion H; subst; apply world_le_refl|].
+  pose proof (open_dst_le w df) as L0.
+  set (w1 := if negb (file_exists w df) || false then set_store w df (Some empty_store) else w) in *.
+  assert (forall x, world_le w1 (snd x) -> x = (e, w') -> world_le w w') as K.
+  { intros x Hx ->. eapply world_le_trans; eauto. }
+  destruct (fid_eqb sf df) eqn:Esame.
+  - destruct (link || false) eqn:El.
+    + destruct (resolve w1 sf sp) eqn:Er.
+      * pose proof (add_link_le w1 sf dp (Hard o) f EOS EOS) as La.
+        destruct (add_link w1 sf dp (Hard o) f EOS EOS) as [ea wa]; simpl in La.
+        destruct ea; inversion H; subst; eapply world_le_trans; eauto.
+      * inversion H; subst; auto.
+      * inversion H; subst; auto.
+    + destruct soft.
+      * eapply K; [|exact H]. apply add_link_le.
+      * destruct (resolve w1 sf sp); try (inversion H; subst; auto; fail).
+        eapply K; [|exact H]. apply h5copy_le.
+  - destruct link; [inversion H; subst; auto|].
+    destruct soft.
+    + eapply K; [|exact H]. apply add_link_le.
+    + destruct dp as [|d0 dr].
+      * destruct Hdom as [->|[N|[N|N]]]; try congruence.
+        rewrite (proj2 (fid_eqb_eq df df) eq_refl) in Esame. discriminate.
+      * destruct (resolve w1 sf sp); try (inversion H; subst; auto; fail).
+        eapply K; [|exact H]. apply h5copy_le.
+Qed.
+
+(** cross-file copy onto the destination root: links are only added; the root attributes are updated *)
+Theorem copy_root_frame : forall w sf sp df e w', sf <> df ->
+  _copy w sf sp df [] false false false false = (e, w') ->
+  exists w2 a, world_le w w2 /\ (w' = w2 \/ w' = set_attrs w2 df 0%nat a).
+Proof.
+  intros w sf sp df e w' Hne H. unfold _copy in H.
+  change (Nat.ltb 1 (0 + 0 + 0)) with false in H. cbv iota in H.
+  pose (noa := @nil (string * aval)).
+  destruct (negb (file_exists w sf)).
+  { injection H as He Hw. subst w'. exists w, noa. split; [apply world_le_refl|left; reflexivity]. }
+  assert (fid_eqb sf df = false) as Esame.
+  { destruct (fid_eqb sf df) eqn:E; auto. apply fid_eqb_eq in E. congruence. }
+  rewrite Esame in H. simpl andb in H. cbv iota in H.
+  pose proof (open_dst_le w df) as L0.
+  set (w1 := if negb (file_exists w df) || false then set_store w df (Some empty_store) else w) in *.
+  destruct (resolve w1 sf sp) eqn:Er;
+    try (injection H as He Hw; subst w'; exists w1, noa; split; [auto|left; reflexivity]; fail).
+  destruct (obj_at w1 f o) as [[a ls|d]|];
+    try (injection H as He Hw; subst w'; exists w1, noa; split; [auto|left; reflexivity]; fail).
+  pose proof (copy_children_le ls w1 f o df) as Lc.
+  destruct (copy_children w1 f o ls df) as [ec wc]; simpl in Lc.
+  destruct ec; injection H as He Hw; subst w'; exists wc, a; (split; [eapply world_le_trans; eauto|auto]).
+Qed.
+
+(* ------------------------------------------------------------------ where a created link resolves *)
+Lemma resolves_nil : forall w f o, resolves_from w f o [] f o.
+Proof. intros. exists 1%nat. reflexivity. Qed.
+
+Lemma resolves_app : forall w f o p f1 o1 r f2 o2,
+  resolves_from w f o p f1 o1 -> resolves_from w f1 o1 r f2 o2 -> resolves_from w f o (p ++ r) f2 o2.
+Proof. intros w f o p f1 o1 r f2 o2 [k1 H1] [k2 H2]. exists (k1 + k2)%nat. eapply walk_app; eauto. Qed.
+
+Lemma split_last_app : forall p par n, split_last p = Some (par, n) -> p = par ++ [n].
+Proof.
+  induction p as [|c r IH]; simpl; intros par n H; try discriminate.
+  destruct (split_last r) as [[q m]|] eqn:E.
+  - inversion H; subst. simpl. f_equal. auto.
+  - inversion H; subst. destruct r; simpl in E; auto.
+    destruct (split_last r) as [[? ?]|]; discriminate.
+Qed.
+
+Lemma ensure_gen_resolves : forall comps w xs xe f o w1 fl f1 g,
+  ensure_gen follow w xs xe f o comps = Some (w1, fl, f1, g) -> resolves_from w1 f o comps f1 g.
+Proof.
+  induction comps as [|c rest IH]; simpl; intros w xs xe f o w1 fl f1 g H.
+  - inversion H; subst. apply resolves_nil.
+  - destruct (obj_at w f o) as [[a ls|d]|] eqn:E; try discriminate.
+    destruct (assoc c ls) as [l|] eqn:Ec.
+    + destruct (follow w f l) as [f' o'| |] eqn:Ef; try discriminate.
+      pose proof (ensure_gen_le _ _ _ _ _ _ _ _ _ _ _ H) as L.
+      eapply resolves_step.
+      * eapply world_le_lookup; eauto. unfold lookup_link. rewrite E. exact Ec.
+      * eapply follow_found_mono; eauto.
+      * eapply IH; eauto.
+    + destruct (alloc w f (Group [] [])) as [wa ga] eqn:Ea.
+      pose proof (ensure_gen_le _ _ _ _ _ _ _ _ _ _ _ H) as L.
+      destruct (world_le_obj _ _ _ _ _ (alloc_le _ _ _ _ _ Ea) E) as (y & Ey & _).
+      eapply resolves_step with (l := Hard ga).
+      * eapply world_le_lookup; eauto. unfold lookup_link.
+        erewrite set_obj_at by eauto. apply assoc_ins_same.
+      * reflexivity.
+      * eapply IH; eauto.
+Qed.
+
+Lemma exists_err_not_ok : forall w f g n e, e <> Ok -> exists_err w f g n e <> Ok.
+Proof.
+  unfold exists_err; intros. destruct (lookup_link w f g n); auto. destruct (follow w f l); auto; discriminate.
+Qed.
+
+Lemma add_link_ok : forall w f p l lf e1 e2 w', e1 <> Ok -> e2 <> Ok ->
+  add_link w f p l lf e1 e2 = (Ok, w') ->
+  exists par n w1 fl f1 g, split_last p = Some (par, n) /\ ensure w f 0 par = Some (w1, fl, f1, g) /\
+    bind w1 f1 g n l = Some w' /\ (forall o, l = Hard o -> f1 = lf).
+Proof.
+  unfold add_link; intros w f p l lf e1 e2 w' N1 N2 H.
+  destruct (split_last p) as [[par n]|]; [|inversion H; congruence].
+  destruct (ensure w f 0 par) as [[[[w1 [xs xe]] f1] g]|] eqn:E; [|inversion H; congruence].
+  exists par, n, w1, (xs, xe), f1, g. split; auto. split; auto.
+  assert (forall x, (exists_err w1 f1 g n e1, x) = (Ok, w') -> False) as K.
+  { intros x Hx. injection Hx as Hx1 Hx2. exact (exists_err_not_ok w1 f1 g n e1 N1 Hx1). }
+  destruct l.
+  - destruct (fid_eqb f1 lf) eqn:Ef; [|inversion H].
+    destruct (bind w1 f1 g n (Hard o)) eqn:B; [|exfalso; eauto].
+    inversion H; subst. split; auto. intros. now apply fid_eqb_eq.
+  - destruct (bind w1 f1 g n (Soft p0)) eqn:B; [|exfalso; eauto].
+    inversion H; subst. split; auto. intros; discriminate.
+  - destruct xe; [inversion H|].
+    destruct (bind w1 f1 g n (Ext f0 p0)) eqn:B; [|exfalso; eauto].
+    inversion H; subst. split; auto. intros; discriminate.
+Qed.
+
+Lemma link_created_resolves : forall w f p l lf e1 e2 w', e1 <> Ok -> e2 <> Ok ->
+  add_link w f p l lf e1 e2 = (Ok, w') ->
+  exists par n f1 g, p = par ++ [n] /\ resolves_from w' f 0 par f1 g /\ lookup_link w' f1 g n = Some l /\
+                     (forall o, l = Hard o -> f1 = lf).
+Proof.
+  intros w f p l lf e1 e2 w' N1 N2 H.
+  destruct (add_link_ok _ _ _ _ _ _ _ _ N1 N2 H) as (par & n & w1 & fl & f1 & g & Hs & He & Hb & Hh).
+  exists par, n, f1, g. split; [now apply split_last_app|]. split.
+  - eapply resolves_mono; [eapply bind_le; eauto|]. unfold ensure in He. eapply ensure_gen_resolves; eauto.
+  - split; auto. eapply bind_lookup; eauto.
+Qed.
+
+(** fileops.ln (hard link, same file): the destination is THE SAME OBJECT as the source *)
+Theorem ln_spec : forall w f sp dp w',
+  _copy w f sp f dp false true false false = (Ok, w') ->
+  exists fo o, resolve w f sp = Found fo o /\ resolves w' f dp fo o /\ world_le w w'.
+Proof.
+  intros w f sp dp w' H.
+  assert (world_le w w') as L by (eapply copy_frame; eauto).
+  unfold _copy in H. change (Nat.ltb 1 (1 + 0 + 0)) with false in H. cbv iota in H.
+  destruct (file_exists w f) eqn:Ex; simpl negb in H; cbv iota in H; [|discriminate].
+  rewrite (proj2 (fid_eqb_eq f f) eq_refl) in H. simpl in H.
+  destruct (resolve w f sp) as [fo o| |] eqn:Er; try discriminate.
+  destruct (add_link w f dp (Hard o) fo EOS EOS) as [ea wa] eqn:Ea.
+  destruct ea; try discriminate. injection H as Hw. subst wa.
+  assert (EOS <> Ok) as NE by discriminate.
+  destruct (link_created_resolves w f dp (Hard o) fo EOS EOS w' NE NE Ea)
+    as (par & n & f1 & g & -> & Hpar & Hl & Hh).
+  exists fo, o. split; auto. split; auto.
+  rewrite (Hh o eq_refl) in *.
+  eapply resolves_app; eauto. eapply resolves_step; eauto; [reflexivity|apply resolves_nil].
+Qed.
